@@ -109,7 +109,10 @@ def refine(case, d, use_model, with_probes):
         return d
     d2 = run_one(unwrap_at(case, i), use_model, with_probes)
     if d2 is not None and d2["index"] == i and d2["kind"] == d["kind"]:
-        d = dict(d, props=[p for p in d["props"] if p != "C10"])
+        # the database operation with the measurement filter misbehaves in the same way: the operation's own
+        # property first, and C10 too (the handle's answer is not that of the database *restricted to the
+        # measurement* as specified — e.g. it shows or touches another measurement's points)
+        d = dict(d, props=[p for p in d["props"] if p != "C10"] + ["C10"])
     else:
         # only the handle misbehaves: C10 — and the operation's own property as experienced through the handle
         d = dict(d, props=["C10"] + [p for p in d["props"] if p != "C10"])
@@ -292,9 +295,45 @@ class Family:
             res.findings.append(f)
             if sum(1 for x in res.findings if x.signature is None) >= 4:
                 break
+        if self.prop == "C11":
+            res.findings += self.aliased_rollback()
         res.findings.sort(key=lambda f: (f.signature is not None, f.kind == "correspondence"))
         res.notes.append(f"disagreements attributed to other properties (reported by their own checks): {foreign}")
         return res
+
+    def aliased_rollback(self):
+        """MemoryStorage holds the caller's objects: the *same* Point inserted twice must also be what it was
+        after a failed update (the protocol builds a fresh object per point, so this is a direct scenario)"""
+        tf = C.import_tinyflux()
+        from tinyflux.storages import MemoryStorage
+
+        out = []
+        for n_alias in (2, 3):
+            for fail_on in (0, 5):
+                db = tf.TinyFlux(storage=MemoryStorage, auto_index=bool(n_alias % 2))
+                p = tf.Point(time=V.dt_of(G.T0), tags={"a": "x"}, fields={"f": 1})
+                for _ in range(n_alias):
+                    db.insert(p)
+                db.insert(tf.Point(time=V.dt_of(G.T0 + 1), tags={"a": "y"}, fields={"f": fail_on}))
+                before = [V.show_point(q) for q in db.all(sorted=False)]
+
+                def fn(old, fail_on=fail_on):
+                    if old["f"] == fail_on:
+                        raise ZeroDivisionError("callable raised")
+                    return {"f": old["f"] + 10}
+
+                try:
+                    db.update_all(fields=fn)
+                    raised = False
+                except ZeroDivisionError:
+                    raised = True
+                after = [V.show_point(q) for q in db.all(sorted=False)]
+                if raised and after != before:
+                    out.append(Finding(
+                        "impl-vs-spec",
+                        f"memory storage, the same Point object inserted {n_alias} times: after update_all raised, contents are {after}, before the call {before}",
+                        dict(family="hist-alias", aliases=n_alias, fail_on=fail_on, observed=after, expected=before)))
+        return out[:1]
 
     def make_finding(self, case, d, model_ok, with_probes):
         prop = self.prop
@@ -347,6 +386,10 @@ def signature(case, d):
 
 
 def replay(payload):
+    if payload.get("family") == "hist-alias":
+        r = Family("C11").aliased_rollback()
+        print(r[0].summary if r else "aliased rollback scenario passes")
+        return bool(r)
     case = {"cfg": payload["cfg"], "ops": payload["ops"]}
     d = run_one(case, False, payload.get("role") == "idx")
     for i, o in enumerate(payload.get("ops_sx", [])):
